@@ -7,15 +7,17 @@ CfgAll == { Cfg(r, [i \in 1..r |-> o], [i \in 1..r |-> q], fq, fo, ffo, p, m, li
             r \in 0..2, o \in 0..2, q \in 1..2, fq \in {1}, fo \in {1}, ffo \in 0..1, p \in BOOLEAN, m \in BOOLEAN, live \in BOOLEAN }
 \* the shapes the driver instantiates with the real prover (arithmetic only, replayed transcript); the numbers are those of the
 \* real proofs (the driver's shape is compared with them)
-CfgReal == { Cfg(1, <<1>>, <<35>>, 9, 4, 4, FALSE, FALSE, FALSE), Cfg(2, <<1, 1>>, <<35, 9>>, 9, 4, 4, FALSE, FALSE, FALSE) }
-CfgRealT == CfgReal \cup { Cfg(2, <<1, 1>>, <<61, 21>>, 13, 2, 2, FALSE, FALSE, FALSE), Cfg(2, <<1, 1>>, <<48, 16>>, 11, 3, 2, FALSE, FALSE, FALSE) }
+CfgReal == { Cfg(1, <<1>>, <<35>>, 9, 4, 4, FALSE, FALSE, FALSE), Cfg(2, <<1, 1>>, <<35, 9>>, 9, 4, 4, FALSE, FALSE, FALSE),
+             \* 14 variables, folding factor 3: the final sumcheck runs over 5 variables, the final queries fold with 3
+             Cfg(2, <<1, 1>>, <<35, 11>>, 11, 3, 5, FALSE, FALSE, FALSE) }
+CfgRealT == CfgReal \cup { Cfg(3, <<1, 1, 1>>, <<35, 9, 9>>, 9, 4, 4, FALSE, FALSE, FALSE) }
 Call(s) == IF s.op = "observe" THEN "observe"
            ELSE IF s.op = "check" THEN (IF s.stage = "pow" THEN "check_pow" ELSE "-")
            ELSE IF s.op = "accumulate" THEN "-"
            ELSE IF s.name \in {"r", "ood_point", "gamma"} THEN "sample_ext"
            ELSE IF s.name = "checkpoint" THEN "sample" ELSE "sample_bits"
 ScriptOf(c) == [i \in 1..Len(Steps(c)) |-> Call(Steps(c)[i])]
-Emit == Done => PrintT(<<"REPLAY", ToJson([spec |-> "Whir", rounds |-> cfg.rounds, mmcs |-> cfg.mmcs, pow |-> cfg.pow,
+Emit == Done => PrintT(<<"REPLAY", ToJson([spec |-> "Whir", rounds |-> cfg.rounds, fold |-> cfg.fold, ffold |-> cfg.ffold, mmcs |-> cfg.mmcs, pow |-> cfg.pow,
                                            fault |-> fault, accepted |-> Accepted, refused_at |-> refusedAt,
                                            inert |-> (fault # "none" /\ Inert(cfg, fault)),
                                            script |-> IF fault = "none" THEN ScriptOf(cfg) ELSE <<>>])>>)
